@@ -4,6 +4,7 @@ import (
 	"bytes"
 	"errors"
 	"fmt"
+	"os"
 	"path/filepath"
 	"strings"
 	"sync"
@@ -315,6 +316,34 @@ func c12Seq(tier string, seed int64, idx int, scratch string) rt.CaseResult {
 			c.AddDistinct(fmt.Sprintf("%s/%s/no-space", modeName(mode), shapeOf(seq)))
 		}
 		verif.SetWriteFault(nil)
+	}
+	// the content file cannot be written for a reason other than lack of space (EIO, EFBIG, ...),
+	// at its k-th write, part of the chunk really written: not a no-space error, but an error
+	for i := 0; i < 6; i++ {
+		k := 1 + rng.Intn(2) // every file below is longer than one 32 KiB chunk: at least two writes
+		e := []syscall.Errno{syscall.EIO, syscall.EFBIG, syscall.EDQUOT}[i%3]
+		writes := map[string]int{}
+		var mu sync.Mutex
+		verif.SetWriteFault(func(path string, p []byte) (int, error, bool) {
+			mu.Lock()
+			defer mu.Unlock()
+			writes[path]++
+			if writes[path] == k {
+				return len(p) / 3 * (i % 2), &os.PathError{Op: "write", Path: path, Err: e}, true
+			}
+			return 0, nil, false
+		})
+		seq := []int{40000, 3000, 70000, 1, 3000, 32768}[:2+rng.Intn(5)]
+		if i%3 == 0 {
+			seq = append([]int{150000}, seq...)
+		}
+		c.Evals++
+		ok := c12WriteFile(&c, env, tr, "victim", fmt.Sprintf("c%d-we%d", idx, i), seq, i%2 == 0 && mode == dbx.Inline, prev, true, refmodel.OtherErr, "write-error-not-no-space")
+		verif.SetWriteFault(nil)
+		if !ok {
+			return c
+		}
+		c.AddDistinct(fmt.Sprintf("%s/%s/write-error/k=%d", modeName(mode), shapeOf(seq), k))
 	}
 	if idx == 0 {
 		c.Sample = map[string]any{"sequences_in_this_case": len(mine), "first": mine[:min(4, len(mine))]}
